@@ -13,6 +13,7 @@ import (
 	"go.pennock.tech/tabular/json"
 	"go.pennock.tech/tabular/markdown"
 	"go.pennock.tech/tabular/texttable"
+	"go.pennock.tech/tabular/texttable/decoration"
 
 	"verif/harness/internal/ev"
 	"verif/harness/internal/gen"
@@ -22,7 +23,20 @@ const ID = "C09"
 
 // Styles are the render configurations: the four non-text renderers, the six
 // registered decorations and an unknown decoration.
-var Styles = []string{"csv", "html", "json", "markdown", "ascii-simple", "none", "utf8-light", "utf8-light-curved", "utf8-heavy", "utf8-double", "no-such-decoration"}
+var Styles = []string{"csv", "html", "json", "markdown", "ascii-simple", "none", "utf8-light", "utf8-light-curved", "utf8-heavy", "utf8-double", "no-such-decoration",
+	"c09-bars-only", "c09-rules-only", "c09-corners-only", "c09-wide-glyphs"}
+
+// decorations an application registered as they are, key points only (nothing says a decoration must be complete):
+// vertical bars and nothing horizontal, horizontal rules and nothing vertical, corners only, and a populated one
+// whose glyphs are two cells wide
+func init() {
+	decoration.RegisterDecorationName("c09-bars-only", decoration.Decoration{VHeader: "|", VBodyBorder: "|", VBodyInner: "|"})
+	decoration.RegisterDecorationName("c09-rules-only", decoration.Decoration{HOuter: "-", HRule: "-"})
+	decoration.RegisterDecorationName("c09-corners-only", decoration.Decoration{TopLeft: "/", TopRight: "\\", BottomLeft: "\\", BottomRight: "/"})
+	wide := decoration.Decoration{Horizontal: "\u2550\u2550", Vertical: "\u6f22"}
+	wide.Populate()
+	decoration.RegisterDecorationName("c09-wide-glyphs", wide)
+}
 
 type Case struct {
 	Script gen.Script `json:"script"`
